@@ -35,6 +35,10 @@ class C15(PureCheck):
             "(layout, method, args) with a formatted or multi-run operand")
     exhaustive = {"quick": False, "thorough": False}
 
+    def design_runs(self, tier):
+        cfg = ("SPECIFICATION Spec\nCONSTANT MaxRuns = 2\nCONSTANT MaxLen = %d\nINVARIANT SplitOk\nINVARIANT SplitlinesOk\nCHECK_DEADLOCK FALSE\n" % (2 if tier == "quick" else 3))
+        return [dict(module="MC_StrMethods", cfg=cfg, workers=8, timeout=3000)]
+
     def inputs(self, tier, rng):
         L1 = list(layouts(1, 2, alphabet=ALPHA, atts=ATTS, min_runs=1))
         L2 = [l for l in layouts(2, 2, alphabet=ALPHA, atts=ATTS, min_runs=2)]
